@@ -127,7 +127,15 @@ pub enum REv {
     /// else through `ssdeep::hash_stream` on the same thread (an
     /// archive-style reader fingerprinting a member), then delivers n bytes.
     Reenter(u32),
+    /// The reader itself panics inside `read` (a bug in the caller's reader,
+    /// contained by the caller with `catch_unwind`).  Nothing is demanded of
+    /// the call that is unwound; what is checked is that later calls on the
+    /// same thread are unaffected.
+    Panic,
 }
+
+/// Message of the scripted reader panic.
+pub const READER_PANIC: &str = "sim: scripted reader panic";
 
 impl REv {
     pub fn to_json(&self) -> J {
@@ -136,12 +144,14 @@ impl REv {
             REv::Fail(e) => J::obj(vec![("fail", e.to_json())]),
             REv::Eof => J::s("eof"),
             REv::Reenter(n) => J::obj(vec![("reenter", J::u(*n as u64))]),
+            REv::Panic => J::s("panic"),
         }
     }
     pub fn from_json(j: &J) -> Result<REv, String> {
         match j {
             J::Int(_) => Ok(REv::Deliver(j.u64_().ok_or("bad deliver")? as u32)),
             J::Str(s) if s == "eof" => Ok(REv::Eof),
+            J::Str(s) if s == "panic" => Ok(REv::Panic),
             J::Obj(_) if j.get("reenter").is_some() => Ok(REv::Reenter(j.gu("reenter")? as u32)),
             J::Obj(_) => Ok(REv::Fail(ErrSpec::from_json(j.get("fail").ok_or("bad fail")?)?)),
             _ => Err("bad read event".into()),
@@ -270,6 +280,7 @@ impl Read for SimReader<'_> {
         };
         match ev {
             REv::Reenter(_) => unreachable!(),
+            REv::Panic => panic!("{}", READER_PANIC),
             REv::Deliver(n) => {
                 let left = self.data.len() - self.pos;
                 let mut k = (n as usize).min(left);
